@@ -39,7 +39,7 @@ package registry
 //@   ensures forall m string :: !idx(r, m, endpointURL)
 //@   ensures forall m string, u string :: u != endpointURL ==> (idx(r, m, u) <==> old(idx(r, m, u)))
 
-//@ spec func statsOK(r *MemoryModelRegistry) bool = r.stats.TotalEndpoints == len(r.stats.ModelsPerEndpoint) && (forall u string :: has(r.stats.ModelsPerEndpoint, u) <==> xhas(r.endpointModels, u)) && (forall u string :: xhas(r.endpointModels, u) ==> r.stats.ModelsPerEndpoint[u] == len(xget(r.endpointModels, u).Models))
+//@ spec func statsOK(r *MemoryModelRegistry) bool = r.stats.ModelsPerEndpoint != nil && allocated(r.stats.ModelsPerEndpoint) && r.stats.TotalEndpoints == len(r.stats.ModelsPerEndpoint) && (forall u string :: has(r.stats.ModelsPerEndpoint, u) <==> xhas(r.endpointModels, u)) && (forall u string :: xhas(r.endpointModels, u) ==> r.stats.ModelsPerEndpoint[u] == len(xget(r.endpointModels, u).Models))
 
 //@ type MemoryModelRegistry
 //@   guarded_by mu: stats
@@ -82,9 +82,44 @@ package registry
 //@   loop 2 invariant forall u string, i int :: old(xhas(r.endpointModels, u)) && 0 <= i && i < len(old(xget(r.endpointModels, u).Models)) ==> old(xget(r.endpointModels, u).Models[i]).Name == old(xget(r.endpointModels, u).Models[i].Name)
 //@   at call updateStats 1 assert idxSound(r)
 //@   at call updateStats 2 assert forall m string :: idx(r, m, endpointURL) ==> lists(r, endpointURL, m)
+//@   at call updateStats 2 assert forall u string :: u != endpointURL ==> xhas(r.endpointModels, u) == old(xhas(r.endpointModels, u)) && xget(r.endpointModels, u) == old(xget(r.endpointModels, u))
+//@   at call updateStats 2 assert forall u string :: old(xhas(r.endpointModels, u)) ==> old(xget(r.endpointModels, u)).Models == old(xget(r.endpointModels, u).Models)
+//@   at call updateStats 2 assert forall u string, i int :: old(xhas(r.endpointModels, u)) && 0 <= i && i < len(old(xget(r.endpointModels, u).Models)) ==> old(xget(r.endpointModels, u).Models[i]).Name == old(xget(r.endpointModels, u).Models[i].Name)
 //@   at call updateStats 2 assert forall m string, u string :: u != endpointURL && old(lists(r, u, m)) ==> lists(r, u, m)
 //@   at call updateStats 2 assert forall m string, u string :: u != endpointURL ==> (idx(r, m, u) <==> old(idx(r, m, u)))
 //@   at call updateStats 2 assert forall m string, u string :: u != endpointURL && idx(r, m, u) ==> lists(r, u, m)
 //@   ensures res != nil ==> emSame(r) && (forall m string, u string :: idx(r, m, u) <==> old(idx(r, m, u)))
 //@   ensures res == nil ==> (forall m string :: lists(r, endpointURL, m) <==> named(models, len(models), m))
 //@   ensures res == nil ==> (forall u string :: u != endpointURL ==> xhas(r.endpointModels, u) == old(xhas(r.endpointModels, u)) && xget(r.endpointModels, u) == old(xget(r.endpointModels, u)))
+
+// ---- C10: what the readers report is exactly the invariant's content
+//@ func (r *MemoryModelRegistry) GetEndpointsForModel
+//@   property C10
+//@   loop 101 invariant forall u string :: seen(u) <==> (exists k int :: 0 <= k && k < len(endpoints) && endpoints[k] == u)
+//@   ensures res1 == nil ==> (forall u string :: (exists k int :: 0 <= k && k < len(res0) && res0[k] == u) <==> idx(r, modelName, u))
+//@   ensures res1 != nil ==> len(res0) == 0
+
+//@ func (r *MemoryModelRegistry) GetModelsForEndpoint
+//@   property C10
+//@   loop 1 invariant len(models) == len(endpointData.Models) && (forall k int :: 0 <= k && k < i$1 ==> models[k] != nil && allocated(models[k]) && models[k].Name == endpointData.Models[k].Name)
+//@   ensures res1 == nil && xhas(r.endpointModels, endpointURL) ==> len(res0) == len(xget(r.endpointModels, endpointURL).Models) && (forall k int :: 0 <= k && k < len(res0) ==> res0[k] != nil && res0[k].Name == xget(r.endpointModels, endpointURL).Models[k].Name)
+//@   ensures res1 == nil && !xhas(r.endpointModels, endpointURL) ==> len(res0) == 0
+//@   ensures res1 != nil ==> len(res0) == 0
+
+//@ func (r *MemoryModelRegistry) IsModelAvailable
+//@   property C10
+//@   loop 101 invariant !hasEndpoints && (forall k string :: !seen(k))
+//@   ensures res ==> (exists u string :: idx(r, modelName, u))
+
+//@ func (r *MemoryModelRegistry) GetStats
+//@   property C10
+//@   loop 1 invariant forall u string :: has(modelsPerEndpoint, u) <==> seen(u)
+//@   loop 1 invariant forall u string :: seen(u) ==> modelsPerEndpoint[u] == r.stats.ModelsPerEndpoint[u]
+//@   ensures res1 == nil ==> res0.TotalEndpoints == len(r.stats.ModelsPerEndpoint) && (forall u string :: has(res0.ModelsPerEndpoint, u) <==> xhas(r.endpointModels, u)) && (forall u string :: xhas(r.endpointModels, u) ==> res0.ModelsPerEndpoint[u] == len(xget(r.endpointModels, u).Models))
+
+//@ func NewMemoryModelRegistry
+//@   property C10
+//@   ensures res != nil && regShape(res)
+//@   ensures idxSound(res) && idxComplete(res)
+//@   ensures statsOK(res)
+//@   ensures forall u string :: !xhas(res.endpointModels, u)
